@@ -182,6 +182,40 @@ def body(ctx: C.Ctx, proof: C.ProofStatus) -> C.Result:
                 m = {"ok": [str(Path(x)) for x in m["ok"]]}
             if m != got:
                 res.disagreements.append(C.Failure(f"model {m} != impl {got}", case, "correspondence"))
+    # "today" is the user's LOCAL calendar day: the real clock in two real time zones (at any moment at least one of them is on
+    # another day than UTC); freezegun cannot show this (it shifts time-zone-aware clocks by its offset as well)
+    import os
+    import time
+
+    from zorg.service.file_groups import expand_file_group_paths
+
+    dated = [c for c in cases if any(a.startswith("@") for a in c["args"]) and any("{" in m for v in c["map"].values() for m in v)][:40]
+    old_tz = os.environ.get("TZ")
+    try:
+        for tzname in ("LINT-14", "AOE12"):
+            os.environ["TZ"] = tzname
+            time.tzset()
+            for case in dated:
+                d0 = dt.date.today()
+                try:
+                    got = {"ok": [str(p) for p in expand_file_group_paths(list(case["args"]), file_group_map=case["map"])]}
+                except Exception:  # noqa  (error behaviour is compared in the frozen stage)
+                    continue
+                if dt.date.today() != d0:
+                    continue   # midnight passed during the call
+                want = spec({**case, "today": [d0.year, d0.month, d0.day]})
+                res.evaluations += 1
+                res.count(f"real_clock_{tzname}")
+                if got != want:
+                    res.failures.append(C.Failure(f"time zone {tzname} (local day {d0}, UTC day {dt.datetime.now(dt.timezone.utc).date()}): expansion {got}, want {want}",
+                                                  {**case, "kind": "local_day", "tz": tzname}))
+                    break
+    finally:
+        if old_tz is None:
+            os.environ.pop("TZ", None)
+        else:
+            os.environ["TZ"] = old_tz
+        time.tzset()
     # clack_parser: `@group` first argument infers `edit`; no arguments => @default
     try:
         from clack import clack_envvars_set
@@ -205,7 +239,7 @@ def body(ctx: C.Ctx, proof: C.ProofStatus) -> C.Result:
 RULE = (
     "random acyclic group maps (1-6 groups, nesting by index order, shared and repeated sub-groups, missing groups, "
     "date patterns yyyymmdd[i] / days[i]:%Y.. / days[i].attr) x argument lists x frozen 'today' on month/year/leap "
-    "boundaries; impl vs Lean model vs independent Python reading of the statement; non-trivial = has a group argument"
+    "boundaries, plus the real clock under TZ=LINT-14 and TZ=AOE12 (local day != UTC day in at least one); impl vs Lean model vs independent Python reading of the statement; non-trivial = has a group argument"
 )
 ASSUME = [
     "str.format / strftime are modelled for the fragment {yyyymmdd[i]}, {days[i]:%Y%m%d%y}, {days[i].year|month|day}, {{ }}",
